@@ -155,8 +155,10 @@ func (f *FSM) GetMapping(statsdMetric string, statsdMetricType string) (*mapping
 					field := matchFields[i]
 					state, present = currentState.transitions[field]
 					fieldsLeft := filedsCount - i - 1
+					// a field that is literally "*" must not be taken for the literal
+					// transition: it would reach the wildcard state without being captured
 					// also compare length upfront to avoid unnecessary loop or backtrack
-					if !present || fieldsLeft > state.maxRemainingLength || fieldsLeft < state.minRemainingLength {
+					if !present || field == "*" || fieldsLeft > state.maxRemainingLength || fieldsLeft < state.minRemainingLength {
 						state, present = currentState.transitions["*"]
 						if !present || fieldsLeft > state.maxRemainingLength || fieldsLeft < state.minRemainingLength {
 							break
